@@ -8,6 +8,7 @@ import ast, builtins, hashlib, itertools, subprocess, tempfile, time, os
 import z3
 
 REPO = os.environ.get('VERIF_REPO', '/repo')
+FEAS_MS = int(os.environ.get('PYVC_FEAS_MS', '150'))   # budget of a path-feasibility query; unknown keeps the path
 
 S, B, I = z3.StringSort(), z3.BoolSort(), z3.IntSort()
 Ref = z3.DeclareSort('Ref')
@@ -131,6 +132,7 @@ class Exec:
                 if len(ends) != 1: raise Unsupported(f'anchor_end {anchor_end!r}: {len(ends)} hits')
                 self.body = seq[i:ends[0]]
             self.src_hash = hashlib.sha256('\n'.join(ast.unparse(x) for x in self.body).encode()).hexdigest()[:16]
+        self.inlines = {}       # callee name -> ast.FunctionDef executed from its real AST at statement level
         self.callees = {}       # attr/func name -> handler(ex, st, recv, args, kwargs) -> outcomes list or V
         self.names = {}         # global names -> V
         self.invariants = {}    # loop header text -> dict(modifies=[names], inv=fn(st, it) -> z3 Bool)
@@ -181,7 +183,7 @@ class Exec:
         self.obligations.append((label, list(st.pc), goal))
 
     def feasible(self, st):
-        s = z3.Solver(); s.set('timeout', 3000); s.add(self.pre, *st.pc)
+        s = z3.Solver(); s.set('timeout', FEAS_MS); s.add(self.pre, *st.pc)
         return s.check() != z3.unsat
 
     def resolve_exc(self, name):
@@ -222,6 +224,7 @@ class Exec:
         if isinstance(o, VObj):
             f = st.objf[o.name]
             if e.attr in f: return f[e.attr]
+            if e.attr == '__class__': return VOpaque()
             raise Unsupported(('field', o.name, e.attr))
         if isinstance(o, VRef):
             ff = st.ghost['ff']
@@ -384,8 +387,12 @@ class Exec:
                 raise Unsupported('len')
             if n == 'isinstance': return self.callees.get('isinstance', lambda *a: VBool(z3.BoolVal(True)))(self, st, None, [self.ev(e.args[0], st), e.args[1]], {})
             if n == 'set' and not e.args: return st.new_set()
+            if n == 'bool' and len(e.args) == 1: return VBool(self.truthy(st, self.ev(e.args[0], st)))
             if n == 'copy':
-                v = self.ev(e.args[0], st); return st.new_set(st.heap[v.cell]['arr'])
+                v = self.ev(e.args[0], st)
+                if isinstance(v, VObj): return self.copy_obj(st, v)
+                if isinstance(v, VTuple): return v
+                return st.new_set(st.heap[v.cell]['arr'])
             if n in ('min', 'max') and len(e.args) == 2:
                 a, b = lift(self.ev(e.args[0], st)).t, lift(self.ev(e.args[1], st)).t
                 return VInt(z3.If(a <= b, a, b) if n == 'min' else z3.If(a >= b, a, b))
@@ -424,6 +431,52 @@ class Exec:
                 if f.attr in self.callees: return self.callees[f.attr](self, st, o, args, kwargs)
             if f.attr in self.callees: return self.callees[f.attr](self, st, o, args, kwargs)
         raise Unsupported(ast.unparse(e)[:100])
+    def copy_obj(self, st, v):
+        """copy.copy of a named object whose __copy__ duplicates its set-valued fields (XsdWildcard.__copy__)"""
+        st.ghost['ncopy'] = st.ghost.get('ncopy', 0) + 1
+        name = f"{v.name}#copy{st.ghost['ncopy']}"; f = {}
+        for k, x in st.objf[v.name].items():
+            f[k] = st.new_set(st.heap[x.cell]['arr']) if isinstance(x, VSet) else x
+        st.objf[name] = f
+        return VObj(name)
+    def inline_use(self, name, qual, file=None):
+        """Execute calls to `name` from the real AST of `qual` (same file unless given)."""
+        tree = self.tree if file is None else ast.parse(open(os.path.join(REPO, file), encoding='utf-8-sig').read())
+        node = tree
+        for part in qual.split('.'):
+            node = find_def(node, part)
+            if node is None: raise Unsupported(f'inline target {qual!r} not found')
+        self.inlines[name] = node
+    def inline_name(self, e):
+        if isinstance(e, ast.Call):
+            n = e.func.attr if isinstance(e.func, ast.Attribute) else getattr(e.func, 'id', None)
+            if n in self.inlines: return n
+        return None
+    def inline_call(self, e, st):
+        fnode = self.inlines[self.inline_name(e)]
+        args = [self.ev(a, st) for a in e.args]; kwargs = {k.arg: self.ev(k.value, st) for k in e.keywords}
+        params = [a.arg for a in fnode.args.args]; env = {}
+        if isinstance(e.func, ast.Attribute) and params and params[0] in ('self', 'cls'):
+            env[params[0]] = self.ev(e.func.value, st); params = params[1:]
+        defaults = fnode.args.defaults; nd = len(defaults)
+        for i, pn in enumerate(params):
+            if i < len(args): env[pn] = args[i]
+            elif pn in kwargs: env[pn] = kwargs[pn]
+            else:
+                j = i - (len(params) - nd)
+                if j < 0: raise Unsupported(('inline: missing argument', pn))
+                env[pn] = self.ev(defaults[j], st)
+        saved = st.env; st.env = env; res = []
+        depth = st.ghost.get('inline_depth', 0)
+        if depth > 6: raise Unsupported('inline depth')
+        st.ghost['inline_depth'] = depth + 1
+        for kind, val, s2 in self.block(fnode.body, st):
+            s2.env = dict(saved); s2.ghost['inline_depth'] = depth
+            if kind == 'return': res.append(('ok', val, s2))
+            elif kind == 'fall': res.append(('ok', NONE, s2))
+            elif kind == 'raise': res.append(('raise', val, s2))
+            else: raise Unsupported(('inline outcome', kind))
+        return res
     def set_method(self, st, o, name, args):
         h = st.heap[o.cell]; a = h['arr']; q = z3.FreshConst(S, 'e')
         def arr_of(x):
@@ -482,7 +535,7 @@ class Exec:
 
     def with_value(self, e, st, k):
         outs = []
-        for kind, v, s2 in self.eval_forking(e, st):
+        for kind, v, s2 in (self.inline_call(e, st) if self.inline_name(e) else self.eval_forking(e, st)):
             if kind == 'raise': outs.append(('raise', v, s2))
             else: outs.extend(k(v, s2))
         return outs
